@@ -134,7 +134,10 @@ Definition transform_api (p : opose) (rows : list (list Q)) : outcome (list vec)
    One case = a list of calls made on the real implementation, each with what it returned.  The model's
    exact result is compared with the observed doubles (as exact rationals) with the property's relative
    tolerance 1e-9:  |obs - model| <= 1e-9 * scale, component-wise, where scale is
-     quaternions   the largest |component| of the model's quaternion
+     rotations     compared as rotation matrices (MQV.close_rot): every entry of rot(observed quaternion) within
+                   1e-9 of the entry of rot(model quaternion) — the property speaks of matrix entries and of "the
+                   rotation of the normalised quaternion", so an implementation that returned a rescaled or
+                   negated quaternion for the same rotation still corresponds
      translations  the sum of the largest |component| of the input translations (of the chain / the pose)
      points        largest |coordinate| of the point + largest |component| of the translation *)
 Definition tol : Q := 1 # 1000000000.
@@ -161,7 +164,7 @@ Definition opt_close {A} (cl : A -> A -> bool) (m o : option A) : bool :=
 Definition tscale (ps : list opose) : Q :=
   fold_left (fun s p => match o_t p with Some t => Qred (s + vmaxabs t) | None => s end) ps 0.
 Definition opose_close (scale : Q) (m o : opose) : bool :=
-  opt_close (fun a b => close_quat tol (qmaxabs a) b a) (o_r m) (o_r o) &&
+  opt_close (fun a b => close_rot tol a b) (o_r m) (o_r o) &&
   opt_close (fun a b => close_vec tol scale b a) (o_t m) (o_t o).
 Definition outcome_close {A} (cl : A -> A -> bool) (m o : outcome A) : bool :=
   match m, o with
